@@ -41,11 +41,15 @@ def canon_outs(outs):
 def tabop_to_val(o):
     if o[0] == 'start': return [0, o[1]]
     if o[0] == 'ins': return [1, o[1], o[2], o[3], o[4], 1 if o[5] else 0]
+    if o[0] == 'rem': return [3, o[1], o[2], o[3], o[4]]
+    if o[0] == 'drop': return [4, o[1], o[2]]
     return [2, o[1]]
 
 def tabop_to_coq(o):
     if o[0] == 'start': return '(TStart %s)' % cN(o[1])
     if o[0] == 'ins': return '(TInsert %s %s %s %s %s)' % (cN(o[1]), cN(o[2]), cN(o[3]), cN(o[4]), cbool(o[5]))
+    if o[0] == 'rem': return '(TRemove %s %s %s %s)' % (cN(o[1]), cN(o[2]), cN(o[3]), cN(o[4]))
+    if o[0] == 'drop': return '(TDrop %s %s)' % (cN(o[1]), cN(o[2]))
     return '(TEnd %s)' % cN(o[1])
 
 def sysev_to_val(e):
@@ -249,8 +253,12 @@ class Prop:
             for _ in range(rng.randint(1, 12)):
                 x = rng.random()
                 f = rng.choice(fams if rng.random() < 0.9 else F)
-                if x < 0.72:
+                if x < 0.55:
                     ops.append(('ins', f, rng.randint(0, 3), rng.randint(1, 3), rng.choice([0, 0, 1]), rng.random() < 0.25))
+                elif x < 0.68:
+                    ops.append(('rem', f, rng.randint(0, 3), rng.randint(1, 3), rng.choice([0, 0, 1])))
+                elif x < 0.74:
+                    ops.append(('drop', f, rng.randint(1, 3)))
                 elif x < 0.9:
                     ops.append(('end', f))
                 else:
@@ -458,6 +466,31 @@ def oracle_tab(c, obs):
                 n = len([1 for v in d.values() if not v])
                 if res != [1, o[2], n]:
                     return 'op %d: unfiltered insert into non-deferring family not announced with its %d paths' % (k, n)
+        elif o[0] == 'rem':
+            d = paths.get((f, o[2]), {})
+            had = d.pop((o[3], o[4]), None)
+            if deferring.get(f) and res != [0]:
+                return 'op %d: withdrawal in deferring family %d handed a change (%s) to the distribution layer' % (k, f, res)
+            if not deferring.get(f) and had is False:
+                n = len([1 for v in d.values() if not v])
+                if res != [1, o[2], n]:
+                    return 'op %d: withdrawal of an unfiltered path in non-deferring family not announced' % k
+        elif o[0] == 'drop':
+            lost = {}
+            for (ff, net), d in paths.items():
+                if ff != f:
+                    continue
+                gone = [key for key in d if key[0] == o[2]]
+                if any(not d[key] for key in gone):
+                    lost[net] = None
+                for key in gone:
+                    del d[key]
+                if net in lost:
+                    lost[net] = len([1 for v in d.values() if not v])
+            if deferring.get(f) and res[1]:
+                return 'op %d: peer drop in deferring family %d handed changes (%s) to the distribution layer' % (k, f, res[1])
+            if not deferring.get(f) and sorted(res[1]) != sorted([n, c] for n, c in lost.items()):
+                return 'op %d: peer drop in non-deferring family announced %s, expected %s' % (k, res[1], sorted(lost.items()))
         else:
             deferring[f] = False
             want = sorted([net, len([1 for v in d.values() if not v])] for (ff, net), d in paths.items()
